@@ -69,7 +69,7 @@ _STATES = re.compile(r"(\d+) states generated, (\d+) distinct states found")
 
 
 def tlc(module, cfg=None, *, name, workers=4, env=None, simulate=None, depth=None, tseed=None,
-        timeout=1800, heap="4g", deque=False, extra=None, allow_violation=False):
+        timeout=1800, heap="4g", deque=False, extra=None, allow_violation=False, specdir=None):
     """Run TLC on spec/<module>.tla.  Returns dict(out, generated, distinct, ok, violated, prints).
     `prints` maps a tag to the list of decoded payloads of lines printed as <<"TAG", "json">>."""
     md = workdir("tlc-" + name)
@@ -86,7 +86,8 @@ def tlc(module, cfg=None, *, name, workers=4, env=None, simulate=None, depth=Non
         cmd += ["-seed", str(tseed)]
     if extra:
         cmd += extra
-    cmd += ["-config", os.path.join(SPEC, (cfg or module) + ".cfg"), os.path.join(SPEC, module + ".tla")]
+    sd = specdir or SPEC
+    cmd += ["-config", os.path.join(sd, (cfg or module) + ".cfg"), os.path.join(sd, module + ".tla")]
     e = dict(os.environ)
     e["JAVA_TOOL_OPTIONS"] = jopts
     if env:
@@ -134,13 +135,13 @@ def parse_prints(out):
     return prints
 
 
-def validate_trace(module, trace_path, *, name, cfg=None, env=None, timeout=1800, heap="4g"):
+def validate_trace(module, trace_path, *, name, cfg=None, env=None, timeout=1800, heap="4g", specdir=None):
     """Trace validation: TLC replays the ndjson file through spec/<module>.tla (a monitor).
     Returns the decoded RESULT record; raises ToolError if the trace was not consumed."""
     e = {"TRACE": trace_path}
     if env:
         e.update(env)
-    r = tlc(module, cfg, name=name, workers=1, env=e, timeout=timeout, heap=heap, deque=True)
+    r = tlc(module, cfg, name=name, workers=1, env=e, timeout=timeout, heap=heap, deque=True, specdir=specdir)
     if "UNMATCHED" in r["prints"] or "RESULT" not in r["prints"]:
         raise ToolError(f"trace {trace_path} not fully consumed by {module}:\n" + r["out"][-3000:])
     res = r["prints"]["RESULT"][-1]
